@@ -135,17 +135,16 @@ def check_charge(case):
 
 @st.composite
 def compact_case(draw):
-    """very compact winding +-1 textures on square cells, centred on a cell centre (odd n) or a vertex (even n):
-    calibrated domain in which the lattice charge is an integer on the unchanged tree (DESIGN section 6)"""
-    odd = draw(st.booleans())
-    n = draw(st.sampled_from([9, 11, 13] if odd else [8, 10, 12, 14]))
-    r100 = draw(st.integers(145, 300)) if odd else draw(st.integers(110, 300))
-    R = r100 / 100
-    # the disk (plus a ring of uniform cells) must stay clear of the mesh boundary
-    smax = int(max(0, n / 2 - 1.5 - R))
-    return {"n": n, "c": draw(st.sampled_from([1.0, 0.3, 2e-9, 5e3])), "Q": draw(st.sampled_from([1, -1])), "R": R,
-            "helicity": draw(st.sampled_from([0.0, 1.5707963267948966, 0.7, 3.0, 5.09, 2.2])),
-            "shift": [draw(st.integers(-smax, smax)), draw(st.integers(-smax, smax))],
+    """compact textures defined in index space (radius in cells), radius >= max(1.45, |Q|) cells, any centre offset
+    within a cell, any helicity, anisotropic cells: calibrated domain in which the lattice charge is the integer -Q on
+    the unchanged tree (13 500 probe cases + the thorough tier; DESIGN section 6)"""
+    Q = draw(st.sampled_from([1, -1, 2, -2, 3, -3]))
+    rmin = max(1.45, float(abs(Q)))
+    R = rmin + draw(st.integers(0, 250)) / 100
+    n = int(2 * np.ceil(R + 2.5)) + draw(st.integers(0, 2))
+    return {"n": n, "cx": draw(st.sampled_from([1.0, 0.3, 2e-9, 5e3])), "cy": draw(st.sampled_from([1.0, 0.7, 5e-9, 5e3])),
+            "Q": Q, "R": R, "helicity": draw(st.integers(0, 628)) / 100,
+            "centre": [draw(st.integers(-50, 50)) / 100, draw(st.integers(-50, 50)) / 100],
             "off": [draw(st.integers(-9, 9)), draw(st.integers(-9, 9))]}
 
 
@@ -153,22 +152,25 @@ def check_compact(case):
     import discretisedfield as df
     import discretisedfield.tools as dft
 
-    n, c = case["n"], case["c"]
-    x = (np.arange(n) + 0.5 - n / 2 - case["shift"][0]) * c
-    y = (np.arange(n) + 0.5 - n / 2 - case["shift"][1]) * c
-    X, Y = np.meshgrid(x, y, indexing="ij")
-    R = case["R"] * c
+    n = case["n"]
+    idx = np.arange(n) + 0.5 - n / 2
+    # generic position: fixed irrational-looking offsets keep the texture away from the exceptional configurations
+    # (exactly antiparallel neighbours, exactly coplanar triples) for which the lattice charge is undefined
+    X, Y = np.meshgrid(idx - case["centre"][0] - 0.00371, idx - case["centre"][1] + 0.00529, indexing="ij")
+    R = case["R"] + 0.0137
     r = np.hypot(X, Y)
     th = np.where(r < R, np.pi * (1 - r / R), 0.0)
-    ph = case["Q"] * np.arctan2(Y, X) + case["helicity"]
+    ph = case["Q"] * np.arctan2(Y, X) + case["helicity"] + 0.1234
     m = np.stack([np.sin(th) * np.cos(ph), np.sin(th) * np.sin(ph), np.cos(th)], axis=-1)
-    p1 = [case["off"][0] * c, case["off"][1] * c]
-    f = df.Field(df.Mesh(p1=p1, p2=[p1[0] + n * c, p1[1] + n * c], n=(n, n)), nvdim=3, value=m)
+    cx, cy = case["cx"], case["cy"]
+    p1 = [case["off"][0] * cx, case["off"][1] * cy]
+    f = df.Field(df.Mesh(p1=p1, p2=[p1[0] + n * cx, p1[1] + n * cy], n=(n, n)), nvdim=3, value=m)
     q = dft.topological_charge(f, method="berg-luescher")
-    tag("cell-centred" if n % 2 else "vertex-centred")
+    tag(f"Q={abs(case['Q'])}")
     if not np.isfinite(q) or abs(q - round(q)) > 1e-9:
-        raise Violation("berg-luescher-not-integer", f"compact winding {case['Q']} texture of radius {case['R']} cells: {q!r}")
-    if case["R"] >= 1.45 and round(q) != -case["Q"]:
+        raise Violation("berg-luescher-not-integer", f"compact winding {case['Q']} texture of radius {case['R']} cells, centre "
+                                                     f"{case['centre']}: {q!r}")
+    if round(q) != -case["Q"]:
         raise Violation("berg-luescher-wrong-winding", f"{q!r}, expected {-case['Q']} (radius {case['R']} cells)")
 
 
